@@ -138,6 +138,10 @@ def _fan_out(fn, jobs, nw, lost, prefetch=2):
             except BaseException:
                 traceback.print_exc()
             finally:
+                try:
+                    if getattr(proglib, "_driver", None) is not None: proglib._driver.p.kill()
+                except Exception:
+                    pass
                 os._exit(0)
         os.close(cmd_r); os.close(res_w)
         workers[pid] = [res_r, cmd_w, b"", {}, time.time()]
